@@ -85,6 +85,10 @@ type Config struct {
 	// path UNDECIDED.
 	AllowFork func(name string) bool
 	MaxPaths  int
+	// MaxChoices bounds the number of forks on one path (a loop whose bound is symbolic forks once per
+	// iteration); TotalFuel bounds the instructions interpreted over all paths of one exploration.
+	MaxChoices int
+	TotalFuel  int
 	// OnFieldAddr is called for every field address computation (struct type, field name).
 	OnFieldAddr func(in *Interp, structT types.Type, field string)
 }
@@ -212,16 +216,28 @@ func ExploreFn(cfg *Config, run func(in *Interp) Value) []*Outcome {
 	if cfg.MaxPaths == 0 {
 		cfg.MaxPaths = 20000
 	}
+	if cfg.MaxChoices == 0 {
+		cfg.MaxChoices = 400
+	}
+	if cfg.TotalFuel == 0 {
+		cfg.TotalFuel = 60000000
+	}
 	o := &oracle{}
 	var outs []*Outcome
+	spent := 0
 	for {
 		o.reset()
 		in := &Interp{cfg: cfg, oracle: o, fuel: cfg.Fuel, symMem: map[string]Value{}, globals: map[*ssa.Global]*Obj{},
 			inited: map[*ssa.Package]bool{}, Notes: map[string]bool{}, enumCache: map[types.Type][]enumConst{}}
 		out := in.runTop(run)
 		outs = append(outs, out)
+		spent += cfg.Fuel - in.fuel
 		if len(outs) >= cfg.MaxPaths {
 			outs = append(outs, &Outcome{Undecided: "path limit exceeded"})
+			break
+		}
+		if spent > cfg.TotalFuel {
+			outs = append(outs, &Outcome{Undecided: "exploration budget exceeded (a loop with a symbolic bound, or too many paths)"})
 			break
 		}
 		if !o.next() {
@@ -281,6 +297,9 @@ func (in *Interp) Choose(name string, labels []string) int {
 	}
 	if in.cfg.AllowFork != nil && !in.cfg.AllowFork(name) {
 		in.Undecided("control depends on undeclared atom %s", name)
+	}
+	if len(in.choices) >= in.cfg.MaxChoices {
+		in.Undecided("more than %d forks on one path (a loop with a symbolic bound?), last atom %s", in.cfg.MaxChoices, name)
 	}
 	v := in.oracle.choose(name, len(labels))
 	in.choices = append(in.choices, Choice{Name: name, Val: v, Label: labels[v]})
